@@ -100,7 +100,8 @@ static int Slots[NSLOT];          /* callback argument = &Slots[k] */
 static void d_v0(void) {} static void d_v1(uint32_t x) { (void)x; }
 static int16_t d_rd(CO_IF_FRM *f) { (void)f; return 0; } static int16_t d_sd(CO_IF_FRM *f) { (void)f; return 1; }
 static void d_reload(uint32_t r) { S->hw = r; } static uint32_t d_delay(void) { return S->hw; } static void d_stop(void) { S->hw = 0; }
-static uint8_t d_update(void) { S->clock++; if (S->hw > 0) { S->hw--; if (S->hw == 0) return 1; } return 0; }
+static int WitLatch, LatchVal;     /* witness: a hardware expiry that is latched while the timer interrupt is disabled */
+static uint8_t d_update(void) { if (LatchVal) { LatchVal = 0; return 1; } S->clock++; if (S->hw > 0) { S->hw--; if (S->hw == 0) return 1; } return 0; }
 static uint32_t d_nv(uint32_t a, uint8_t *b, uint32_t c) { (void)a; (void)b; return c; }
 static const CO_IF_CAN_DRV Can = { d_v0, d_v1, d_rd, d_sd, d_v0, d_v0 };
 static const CO_IF_TIMER_DRV Tm = { d_v1, d_reload, d_delay, d_stop, d_v0, d_update };
@@ -120,7 +121,11 @@ static void isr(void)
     (void)COTmrService(&Node.Tmr);
     InIsr = 0;
 }
-void COTmrLock(void)   { LockDepth++; IrqMasked = 1; S->lockclock = S->clock; }
+void COTmrLock(void)
+{
+    LockDepth++; IrqMasked = 1; S->lockclock = S->clock;
+    if (WitLatch && S->hw == 1) { WitLatch = 0; S->clock++; S->hw = 0; LatchVal = 1; IrqPending++; }    /* the timer expires right after the interrupt was disabled */
+}
 void COTmrUnlock(void)
 {
     LockDepth--; IrqMasked = 0;
@@ -386,6 +391,22 @@ static void witness_period(void)
     printf("stat executions 1\n");
 }
 
+static void witness_latched(void)
+{
+    /* the last running timer is deleted while its expiry is latched in the (disabled) timer interrupt: the service routine that runs
+     * when the interrupt is enabled again finds no timer in the used list and has nothing to do */
+    S = malloc(sizeof(SYS)); sys_init(2, 1);
+    int16_t id = COTmrCreate(&Node.Tmr, 1, 0, wit_cb, 0);
+    WitLatch = 1;
+    int16_t r = COTmrDelete(&Node.Tmr, id);
+    COTmrProcess(&Node.Tmr);
+    if (r != 0 || WitCnt != 0) VIOL("latched/delete", "delete of the last timer with its expiry latched: delete returned %d, callback ran %lu times", r, WitCnt);
+    int16_t id2 = COTmrCreate(&Node.Tmr, 2, 0, wit_cb, 0);
+    for (int t = 0; t < 3; t++) { (void)COTmrService(&Node.Tmr); COTmrProcess(&Node.Tmr); }
+    if (id2 < 0 || WitCnt != 1) VIOL("latched/after", "timer created after the latched delete: id %d, ran %lu times in 3 ticks (reference 1)", id2, WitCnt);
+    printf("stat executions 1\n");
+}
+
 /* ------------------------------------------------------------- conversions */
 static void conv(unsigned long n)
 {
@@ -614,6 +635,7 @@ int main(int argc, char **argv)
     if (!strcmp(mode, "c07bfs")) c07bfs(atoi(argv[2]), atoi(argv[3]), (size_t)strtoul(argv[4], 0, 0));
     else if (!strcmp(mode, "c07rand")) { Rng = 0x9E3779B97F4A7C15ull ^ (strtoull(argv[2], 0, 0) * 0x2545F4914F6CDD1Dull); c07rand(strtoul(argv[3], 0, 0), atoi(argv[4])); }
     else if (!strcmp(mode, "witness")) { witness_period(); }
+    else if (!strcmp(mode, "latched")) { witness_latched(); }
     else if (!strcmp(mode, "conv")) { Rng = 0x9E3779B97F4A7C15ull ^ (strtoull(argv[2], 0, 0) * 0x2545F4914F6CDD1Dull); conv(strtoul(argv[3], 0, 0)); }
     else if (!strcmp(mode, "c08plain")) { Rng = 0x9E3779B97F4A7C15ull ^ (strtoull(argv[2], 0, 0) * 0x2545F4914F6CDD1Dull); c08plain(strtoul(argv[3], 0, 0), atoi(argv[4])); }
     else if (!strcmp(mode, "c08fast")) { Rng = 0x9E3779B97F4A7C15ull ^ (strtoull(argv[2], 0, 0) * 0x2545F4914F6CDD1Dull); c08fast(strtoul(argv[3], 0, 0), atoi(argv[4])); }
